@@ -219,7 +219,7 @@ def r20_3_refusal_order(chk):
     """Inside the set-up of one object from the data (a channel, the frame): a refusal that is decided *after* a derived
     value was already stored leaves that value behind although the write did not happen.  Every (stored attribute part,
     attribute the later refusal is about) pair is an obligation, keyed semantically (whichever helper stores or raises)."""
-    from ..terms import subterms, refusal_literals, passed_refusal, pp
+    from ..terms import subterms, refusal_literals, passed_refusal, pp, neg
     ix = chk.ix
 
     def path(t):
@@ -251,7 +251,9 @@ def r20_3_refusal_order(chk):
                 own = [l for l in e.pc if not passed_refusal(l, ref)]
                 subj = "+".join(sorted({p_ for l in own for p_ in spec_paths(l)}))
                 for j, k, s_ in stores:
-                    if j < i and k:
+                    # (a store and a refusal on the two branches of one test never happen in the same run)
+                    exclusive = any(neg(l) in e.pc for l in s_.pc)
+                    if j < i and k and not exclusive:
                         pairs.setdefault((k, subj), (s_, e))
         n += len(stores)
         for (k, subj), (s_, e) in sorted(pairs.items()):
